@@ -131,12 +131,152 @@ class ClassInfo:
         return f"<Class {self.module.name}:{self.name}>"
 
 
+def _worklist_for(body, i, uses):
+    """`L = list(X)` [`L.reverse()`] `while L: T = L.pop()|L.pop(0); ...` where the local L occurs
+    nowhere else in the function: the loop is `for T in X` (or over reversed(X)).  Returns
+    (for_node, statements consumed) or None."""
+    st = body[i]
+    if not (isinstance(st, ast.Assign) and len(st.targets) == 1
+            and isinstance(st.targets[0], ast.Name) and isinstance(st.value, ast.Call)
+            and isinstance(st.value.func, ast.Name) and st.value.func.id in ("list", "sorted")
+            and not st.value.keywords and len(st.value.args) == 1):
+        return None
+    L = st.targets[0].id
+    src, rev = st.value, False
+    if src.func.id == "list":
+        src = src.args[0]
+        if isinstance(src, ast.Call) and isinstance(src.func, ast.Name) \
+                and src.func.id == "reversed" and len(src.args) == 1 and not src.keywords:
+            src, rev = src.args[0], True
+    j, n_uses = i + 1, 3
+    if j < len(body) and isinstance(body[j], ast.Expr) and isinstance(body[j].value, ast.Call) \
+            and isinstance(body[j].value.func, ast.Attribute) \
+            and isinstance(body[j].value.func.value, ast.Name) \
+            and body[j].value.func.value.id == L and body[j].value.func.attr == "reverse" \
+            and not body[j].value.args:
+        rev, j, n_uses = not rev, j + 1, 4
+    if j >= len(body) or not isinstance(body[j], ast.While) or uses.get(L) != n_uses:
+        return None
+    w = body[j]
+    t = w.test
+    if isinstance(t, ast.Compare) and len(t.ops) == 1 and isinstance(t.left, ast.Call) \
+            and isinstance(t.left.func, ast.Name) and t.left.func.id == "len" \
+            and isinstance(t.comparators[0], ast.Constant) and t.comparators[0].value == 0 \
+            and isinstance(t.ops[0], (ast.Gt, ast.NotEq)) and len(t.left.args) == 1:
+        t = t.left.args[0]
+    elif isinstance(t, ast.Call) and isinstance(t.func, ast.Name) and t.func.id == "len" \
+            and len(t.args) == 1:
+        t = t.args[0]
+    if not (isinstance(t, ast.Name) and t.id == L and w.body):
+        return None
+    first = w.body[0]
+    if not (isinstance(first, ast.Assign) and len(first.targets) == 1
+            and isinstance(first.value, ast.Call) and isinstance(first.value.func, ast.Attribute)
+            and first.value.func.attr == "pop" and isinstance(first.value.func.value, ast.Name)
+            and first.value.func.value.id == L and not first.value.keywords):
+        return None
+    a = first.value.args
+    if not a:
+        from_end = True
+    elif len(a) == 1 and isinstance(a[0], ast.Constant) and a[0].value == 0:
+        from_end = False
+    else:
+        return None
+    forward = (rev and from_end) or (not rev and not from_end)
+    it = src if forward else ast.Call(func=ast.Name(id="reversed", ctx=ast.Load()),
+                                      args=[st.value], keywords=[])
+    rest = w.body[1:] or [ast.Pass()]
+    new = ast.For(target=first.targets[0], iter=it, body=rest, orelse=w.orelse, type_comment=None)
+    ast.copy_location(new, w)
+    ast.fix_missing_locations(new)
+    return new, j + 1 - i
+
+
+def _all_but_position(tree):
+    """inside `for i, x in enumerate(L)`: `for y in L[:i] + L[i+1:]` visits every other entry in
+    order - it is `for j, y in enumerate(L): if i == j: continue`"""
+    k = 0
+    for outer in ast.walk(tree):
+        if not (isinstance(outer, ast.For) and isinstance(outer.iter, ast.Call)
+                and isinstance(outer.iter.func, ast.Name) and outer.iter.func.id == "enumerate"
+                and len(outer.iter.args) == 1 and not outer.iter.keywords
+                and isinstance(outer.target, ast.Tuple) and len(outer.target.elts) == 2
+                and isinstance(outer.target.elts[0], ast.Name)):
+            continue
+        i, L = outer.target.elts[0].id, ast.dump(outer.iter.args[0])
+        for st in outer.body:
+            for f in ast.walk(st):
+                if not (isinstance(f, ast.For) and isinstance(f.iter, ast.BinOp)
+                        and isinstance(f.iter.op, ast.Add)):
+                    continue
+                a, b = f.iter.left, f.iter.right
+                if not (isinstance(a, ast.Subscript) and isinstance(b, ast.Subscript)
+                        and ast.dump(a.value) == L and ast.dump(b.value) == L
+                        and isinstance(a.slice, ast.Slice) and isinstance(b.slice, ast.Slice)
+                        and a.slice.lower is None and a.slice.step is None
+                        and isinstance(a.slice.upper, ast.Name) and a.slice.upper.id == i
+                        and b.slice.upper is None and b.slice.step is None
+                        and isinstance(b.slice.lower, ast.BinOp)
+                        and isinstance(b.slice.lower.op, ast.Add)
+                        and isinstance(b.slice.lower.left, ast.Name)
+                        and b.slice.lower.left.id == i
+                        and isinstance(b.slice.lower.right, ast.Constant)
+                        and b.slice.lower.right.value == 1):
+                    continue
+                k += 1
+                j = f"_pos{k}"
+                skip = ast.If(test=ast.Compare(left=ast.Name(id=i, ctx=ast.Load()),
+                                               ops=[ast.Eq()],
+                                               comparators=[ast.Name(id=j, ctx=ast.Load())]),
+                              body=[ast.Continue()], orelse=[])
+                f.target = ast.Tuple(elts=[ast.Name(id=j, ctx=ast.Store()), f.target],
+                                     ctx=ast.Store())
+                f.iter = ast.Call(func=ast.Name(id="enumerate", ctx=ast.Load()),
+                                  args=[a.value], keywords=[])
+                f.body = [skip] + f.body
+                for n in (skip, f.target, f.iter):
+                    ast.copy_location(n, f)
+                ast.fix_missing_locations(f)
+
+
+def normalise_worklists(tree):
+    """rewrite worklist loops over a local copy (see _worklist_for) into the for-loop they are"""
+    _all_but_position(tree)
+    for fn in ast.walk(tree):
+        if not isinstance(fn, (ast.FunctionDef, ast.AsyncFunctionDef)):
+            continue
+        if not any(isinstance(n, ast.While) for n in ast.walk(fn)):
+            continue
+        uses = {}
+        for n in ast.walk(fn):
+            if isinstance(n, ast.Name):
+                uses[n.id] = uses.get(n.id, 0) + 1
+        for node in ast.walk(fn):
+            for fld in ("body", "orelse", "finalbody"):
+                b = getattr(node, fld, None)
+                if not (isinstance(b, list) and b and isinstance(b[0], ast.stmt)):
+                    continue
+                i, out, changed = 0, [], False
+                while i < len(b):
+                    m = _worklist_for(b, i, uses)
+                    if m:
+                        out.append(m[0])
+                        i += m[1]
+                        changed = True
+                    else:
+                        out.append(b[i])
+                        i += 1
+                if changed:
+                    setattr(node, fld, out)
+
+
 class ModuleInfo:
     def __init__(self, name, path, src, tree=None):
         self.name = name
         self.path = path
         self.src = src
         self.tree = tree if tree is not None else ast.parse(src, filename=path)
+        normalise_worklists(self.tree)
         self.classes = {}
         self.functions = {}
         self.assigns = {}             # module-level name -> ast expr (last assignment)
